@@ -27,6 +27,18 @@ impl InstructionGenerator {
         pos: Position,
     ) {
         let (name, args) = built_in_sub_call.into();
+        if name == BuiltInSub::Read && args.len() > 1 {
+            // READ a, b is READ a : READ b — each variable is assigned before the
+            // next one is resolved (READ N%, A%(N%)), and the variables read before
+            // a failing item keep their new values
+            for arg in args {
+                self.generate_built_in_sub_call_instructions(
+                    BuiltInSubCall::new(BuiltInSub::Read, vec![arg]),
+                    pos,
+                );
+            }
+            return;
+        }
         self.generate_push_unnamed_args_instructions(&args, pos);
         self.push(Instruction::PushStack, pos);
         self.push(Instruction::BuiltInSub(name), pos);
